@@ -84,6 +84,10 @@ Definition run_tls (c : list N) : list N :=
       let t := mkT (issuer_of sc) (nm =? 0) (negb (sk =? 0)) (ccert_of cc) (negb (ca =? 0)) in
       [b2n (reaches t); b2n (server_asks t)]
   | 2 :: cert :: ca :: r => irun (mkI (cert, negb (ca =? 0)) []) (parse_iev r)
+  | [5; cert; n] =>
+      (* the identity replaced n times through the server's own reload path, the client CA staying configured:
+         per round: reached with the right client certificate, certificate seen, reached without one, asked *)
+      flat_map (fun i => [1; (cert + N.of_nat i) mod 3; 0; 1]) (seq 0 (S (N.to_nat n)))
   | [4; which; sk] =>
       (* roots / client CA without any certificate, or none given (then: the system store, which holds root A) *)
       let skip := negb (sk =? 0) in
